@@ -484,7 +484,7 @@ def main(prop, tier, seed, jobs=None, update_baseline=False):
     for u in undecided:
         print(f"UNDECIDED property={prop} obligation={u[0]} reason={u[1]} {str(u[2])[:300] if len(u) > 2 else ''}")
     for c in checker_err:
-        print(f"CHECKER-ERROR property={prop} {c[0]}: {str(c[1])[:1500]}")
+        print(f"CHECKER-ERROR property={prop} {c[0]}: ...{str(c[1])[-1800:]}")
     print(f"{prop} {tier}: obligations={n_ob} discharged={n_dis} open={len(open_obs)} known={len(known_hits)} "
           f"violations={len(real_viol)} undecided={len(undecided)} errors={len(checker_err)} wall={ev['wall_s']}s")
     if update_baseline:
